@@ -98,6 +98,8 @@ def absorb_mc(rep, pid, recs, aspects, describe, need_nontrivial=False):
         if a:
             rep.cov['audit_rewrites_total'] = rep.cov.get('audit_rewrites_total', 0) + a['total']
             rep.cov['audit_rewrites_reproved'] = rep.cov.get('audit_rewrites_reproved', 0) + a['checked']
+            if a.get('unproved'):
+                rep.cov['audit_rewrites_unproved_within_budget'] = rep.cov.get('audit_rewrites_unproved_within_budget', 0) + a['unproved']
             if a['failed']:
                 rep.inconclusive('%s: simplifier lemma batch not re-proved' % key)
         c = rec.get('cross')
@@ -200,7 +202,7 @@ def with_e(ftxts, logic='LTL'):
 
 
 def run_c02(rep, tier):
-    rep.assumptions += ['total Kripke structures with n<=2 (3 thorough) states over atoms {p,q}; path formulas from the stated sets, cut by the number of elementary formulas e (the tableau has n*2^e nodes)',
+    rep.assumptions += ['total Kripke structures with n<=2 states over atoms {p,q} (n=3 for five one-operator formulas; 85 formulas in the thorough tier); path formulas from the stated sets, cut by the number of elementary formulas e (the tableau has n*2^e nodes)',
                         'reference = product with assignments to elementary formulas + Emerson-Lei; unrolling depth found on a reduced twin, stability of every fixpoint proved by the solver',
                         'fixed tree at commit a1b7f49 or later (two tableau defects repaired, see known_findings.json)']
     rep.cov['trusted_base'] = TRUSTED
@@ -223,11 +225,14 @@ def run_c02(rep, tier):
     tasks += [('LTL', 2, [t], {}) for t in e3[:ne3]]
     tasks += [('LTL', 1, ch, {}) for ch in chunks(e3[:40] + e4[:20], 10)]
     nforms = len(small) + ne3
+    # three states: one formula per temporal operator in the quick tier (they start first: each takes 10-180 s and ~3 GB)
+    n3q = ['A (p U q)', 'A (p R q)', 'A G p', 'A F p', 'A X p']
+    tasks = [('LTL', 3, [t], dict(audit=False)) for t in n3q] + tasks
     if tier == 'thorough':
         tasks += [('LTL', 2, [t], {}) for t in e4[:6]]
-        n3 = [t for e, t in we if e <= 1][:80]
+        n3 = [t for e, t in we if e <= 1 and t not in n3q][:80]
         tasks += [('LTL', 3, [t], {}) for t in n3]
-    rep.cov['bounds'].update(n='1..2' + (' ; n=3 for 80 formulas with e<=1' if tier == 'thorough' else ''), formulas=nforms,
+    rep.cov['bounds'].update(n='1..2; n=3 for %s' % ', '.join(n3q) + (' and 80 further formulas with e<=1' if tier == 'thorough' else ''), formulas=nforms,
                              formula_sets='A g for g in: atoms, depth 1 over {p,q,true,false}, depth 2 over {p,q} (e<=2), %d seeded depth-3 formulas with e=3' % ne3,
                              loop_bounds='folded runs: loops unroll until no input needs another iteration; every loop-terminating fold is re-proved by the solver',
                              no_fold='not available for the tableau: without reduction the closure worklist becomes symbolic-length and sorted() of it is outside the evaluator; the simplifier is audited by re-proved rewrite lemmas here and by the raw runs of C01/C12/C13')
@@ -574,6 +579,8 @@ def absorb_aspects(rep, pid, t, recs, aspects, describe):
         if au:
             rep.cov['audit_rewrites_total'] = rep.cov.get('audit_rewrites_total', 0) + au['total']
             rep.cov['audit_rewrites_reproved'] = rep.cov.get('audit_rewrites_reproved', 0) + au['checked']
+            if au.get('unproved'):
+                rep.cov['audit_rewrites_unproved_within_budget'] = rep.cov.get('audit_rewrites_unproved_within_budget', 0) + au['unproved']
             if au['failed']:
                 rep.inconclusive('%s: simplifier lemma batch not re-proved' % key)
 
